@@ -1039,7 +1039,7 @@ func (e *Engine) VerifyLemma(bc *BoundContract) (rep *FuncReport) {
 	}
 	b := fenv.evalTerm(sd.from.Body.List[0].(*ast.ReturnStmt).Results[0])
 	pos := e.Fset.Position(sd.decl.Pos())
-	k0 := c.Var("ind_k", BV(64))
+	k0 := c.Var("sk_ind_k", BV(64))
 	// lemmas declared earlier that this proof uses (acyclic by declaration order)
 	for _, fl := range sd.uses {
 		env := &specEnv{u: u, bc: sd.bc, st: st, vars: map[*types.Var]Val{}}
